@@ -446,23 +446,67 @@ func runC05R5(c *eng.Ctx, r *eng.RuleCtx) {
 		return
 	}
 	fn := sig.Params().At(0)
-	var body *eng.Lit
-	for _, l := range litsPassedTo(f, info, withLock) {
-		body = l
-	}
-	if body == nil {
-		r.Bad(f.Key, f.Decl.Pos(), "Filter does not run its loop inside withLock")
+	_ = withLock
+	// the single store that publishes the filtered slice, wherever it is written (function body, or the literal
+	// handed to withLock); the scan and the publication must lie in one write-locked critical section of `m`
+	var allStores []*ast.AssignStmt
+	ast.Inspect(f.Decl.Body, func(n ast.Node) bool {
+		if as, ok := n.(*ast.AssignStmt); ok {
+			for _, l := range as.Lhs {
+				if eng.IsField(info, l, items) {
+					allStores = append(allStores, as)
+				}
+			}
+		}
+		return true
+	})
+	if len(allStores) != 1 {
+		r.Bad(f.Key+" publish", f.Decl.Pos(), fmt.Sprintf("expected one store to items, found %d", len(allStores)))
 		return
 	}
-	g := p.GraphOfLit(body)
-	stores := fieldStores(info, body.Lit.Body, items, false)
-	if len(stores) != 1 {
-		r.Bad(f.Key+" publish", body.Lit.Pos(), fmt.Sprintf("expected one store to items, found %d", len(stores)))
-		return
+	var bodyLit *eng.Lit
+	for _, l := range f.Lits {
+		if l.Lit.Pos() <= allStores[0].Pos() && allStores[0].Pos() < l.Lit.End() {
+			bodyLit = l // innermost: literals are listed outer first
+		}
+	}
+	g := p.GraphOf(f)
+	bodyBlock := f.Decl.Body
+	if bodyLit != nil {
+		g = p.GraphOfLit(bodyLit)
+		bodyBlock = bodyLit.Lit.Body
+	}
+	body := struct{ Lit struct{ Body *ast.BlockStmt } }{}
+	body.Lit.Body = bodyBlock
+	stores := allStores
+	mu := p.Field(pkgQueue, "TaskQueue", "m")
+	la := p.Locks()
+	lockedSame := func(a, b *eng.GNode) bool {
+		if a == nil || b == nil || mu == nil {
+			return false
+		}
+		ha, oka := la.StateAtNode(a)[mu]
+		hb, okb := la.StateAtNode(b)[mu]
+		if !oka || !okb || ha.Mode != eng.ModeW || hb.Mode != eng.ModeW || len(ha.Acq) != len(hb.Acq) {
+			return false
+		}
+		for k := range ha.Acq {
+			if !hb.Acq[k] {
+				return false
+			}
+		}
+		return true
 	}
 	pub := stores[0]
 	nv, _ := eng.SelObj(info, rhsFor(info, pub, items)).(*types.Var)
 	r.Check(nv != nil && eng.LoopOf(body.Lit.Body, pub.Pos()) == nil, f.Key+" publish", pub.Pos(), "new slice published once, after the loop", "the filtered slice is not published exactly once after the loop")
+	scanLocked := false
+	for _, el := range elemLoopsOver(info, body.Lit.Body, func(x ast.Expr) bool { return eng.IsField(info, x, items) }) {
+		if entry := loopBodyEntryOf(g, el.Stmt); entry != nil && lockedSame(entry, g.NodeOf(pub)) {
+			scanLocked = true
+		}
+	}
+	r.Check(scanLocked, f.Key+" one-critical-section", pub.Pos(), "the scan of items and the publication of the filtered slice happen in one write-locked section of TaskQueue.m", "Filter does not scan and publish inside one write-locked critical section: a task appended in between is overwritten by the stale filtered copy")
 	if nv == nil {
 		return
 	}
@@ -534,7 +578,7 @@ func runC05R5(c *eng.Ctx, r *eng.RuleCtx) {
 		return true
 	})
 	if n != 1 {
-		r.Bad(f.Key+" appends", body.Lit.Pos(), fmt.Sprintf("expected exactly one append into the new slice, found %d", n))
+		r.Bad(f.Key+" appends", body.Lit.Body.Pos(), fmt.Sprintf("expected exactly one append into the new slice, found %d", n))
 	}
 }
 
